@@ -1,5 +1,7 @@
 use std::fmt::Debug;
 use std::hash::Hash;
+use std::sync::atomic::{AtomicBool, Ordering};
+use std::sync::Arc;
 use tracing::debug;
 use tracing::{info, instrument};
 
@@ -29,6 +31,14 @@ where
 
     /// The maximum size for goals.
     max_size: usize,
+
+    /// Set once `should_continue` has returned `false` during the current
+    /// root goal: what is computed from then on may be weaker than the real
+    /// answer and must not reach the cache.
+    interrupted: Arc<AtomicBool>,
+
+    /// Takes the place of the cache for the rest of an interrupted root goal.
+    scratch: Cache<K, V>,
 }
 
 pub(super) trait SolverStuff<K, V>: Copy
@@ -79,6 +89,8 @@ where
             search_graph: SearchGraph::new(),
             cache,
             max_size,
+            interrupted: Arc::new(AtomicBool::new(false)),
+            scratch: Cache::new(),
         }
     }
 
@@ -113,6 +125,16 @@ where
         // in-progress goals behind. Those are not results: start afresh.
         self.stack.clear();
         self.search_graph.clear();
+        let interrupted = self.interrupted.clone();
+        interrupted.store(false, Ordering::Relaxed);
+        self.scratch = Cache::new();
+        let should_continue = move || {
+            let go_on = should_continue();
+            if !go_on {
+                interrupted.store(true, Ordering::Relaxed);
+            }
+            go_on
+        };
         let minimums = &mut Minimums::new();
         self.solve_goal(canonical_goal, minimums, solver_stuff, should_continue)
     }
@@ -130,7 +152,7 @@ where
     ) -> V {
         // First check the cache.
         if let Some(cache) = &self.cache {
-            if let Some(value) = cache.get(goal) {
+            if let Some(value) = cache.get(goal).or_else(|| self.scratch.get(goal)) {
                 debug!("solve_reduced_goal: cache hit, value={:?}", value);
                 return value;
             }
@@ -182,7 +204,10 @@ where
             // cache now. This is a sort of hack to alleviate the
             // worst of the repeated work that we do during tabling.
             if subgoal_minimums.positive >= dfn {
-                if let Some(cache) = &mut self.cache {
+                if self.cache.is_some() && self.interrupted.load(Ordering::Relaxed) {
+                    debug!("solve_reduced_goal: SCC head encountered, solve was interrupted");
+                    self.search_graph.move_to_cache(dfn, &self.scratch);
+                } else if let Some(cache) = &mut self.cache {
                     self.search_graph.move_to_cache(dfn, cache);
                     debug!("solve_reduced_goal: SCC head encountered, moving to cache");
                 } else {
